@@ -880,7 +880,7 @@ func evalActionDelete(node *ActionExpression, env *Environment) Object {
 		}
 
 		if obj == UNDEFINED {
-			env.Set(id.Value, val)
+			// there is nothing to delete from an attribute that does not exist
 			return obj
 		}
 
